@@ -270,6 +270,9 @@ func (c *cfgFloat) toString(*options) (string, error) {
 	// integral values print like the integer they are: the front-ends that
 	// deliver every number as float64 must not turn 1000000 into "1e+06"
 	if c.f == math.Trunc(c.f) && math.Abs(c.f) < 1e21 {
+		if c.f == 0 {
+			return "0", nil // also for the negative zero: the integer -0 is 0
+		}
 		return strconv.FormatFloat(c.f, 'f', 0, 64), nil
 	}
 	return fmt.Sprintf("%v", c.f), nil
